@@ -960,6 +960,27 @@ func (f *Frame) rawAccess(st *State, addr *Term, size int64, write bool, pos tok
 	f.oblige(st, kind, what, fmt.Sprintf("raw %d-byte access at %s stays inside a known object", size, what), pos, B.Or(alts...), nil)
 }
 
+// checkReads: with a reads clause, every heap class loaded must be listed.
+func (f *Frame) checkReads(st *State, key string, t types.Type, pos token.Pos) {
+	if !f.top || f.c == nil || !f.c.HasReads {
+		return
+	}
+	allowed := newModSet()
+	for _, a := range f.c.Reads {
+		f.vc.assignEntryClasses(a, f.c, allowed)
+	}
+	if allowed.all {
+		return
+	}
+	got := map[string]bool{}
+	storeClasses(key, t, got)
+	for k := range got {
+		if !allowed.keys[k] {
+			f.oblige(st, "reads", k, "load from heap class "+k+" is permitted by the reads clause", pos, f.vc.B.False(), nil)
+		}
+	}
+}
+
 func (f *Frame) load(st *State, pv Value, t types.Type, src ssa.Value, pos token.Pos) Value {
 	vc := f.vc
 	switch p := pv.(type) {
@@ -967,16 +988,22 @@ func (f *Frame) load(st *State, pv Value, t types.Type, src ssa.Value, pos token
 		if p.Cell != nil {
 			return vc.cellLoad(st, p, t)
 		}
+		f.checkReads(st, p.Key, t, pos)
 		if p.Raw {
 			f.rawAccess(st, p.Addr, sizeOf(t), false, pos, src.Name())
 		}
 		return vc.loadTyped(st, p.Addr, p.Key, t)
 	case VT:
+		if _, captured := src.(*ssa.FreeVar); captured {
+			// a variable captured by the closure: always allocated, private to the closure
+			return vc.loadTyped(st, p.T, "", t)
+		}
 		if isRawPointer(src, 0) {
 			f.rawAccess(st, p.T, sizeOf(t), false, pos, src.Name())
 		} else {
 			f.nilCheck(st, p.T, src.Name(), pos)
 		}
+		f.checkReads(st, "", t, pos)
 		return vc.loadTyped(st, p.T, "", t)
 	}
 	return vc.freshValue(f.prefix+"load", t)
